@@ -207,6 +207,17 @@ def run_concrete(spec, script=None, seed=0):
 def main():
     spec = json.load(open(sys.argv[1]))
     mod = __import__(spec["module"], fromlist=["HARNESSES"])
+    if spec["mode"] in ("smt", "smt_replay"):
+        t0 = time.time()
+        fn = getattr(mod, "SMT" if spec["mode"] == "smt" else "SMT_REPLAY")[spec["harness"]]
+        try:
+            out = fn(spec.get("cfg", {})) if spec["mode"] == "smt" else fn(spec.get("cfg", {}), spec["model"])
+        except Exception as e:
+            out = {"verdict": "inconclusive", "message": "engine B: " + type(e).__name__ + ": " + str(e)[:300]}
+        out["wall_s"] = round(time.time() - t0, 2)
+        out["mode"] = spec["mode"]
+        print("\n@@RESULT@@" + json.dumps(_jsonable(out)))
+        return
     RUN.harness = mod.HARNESSES[spec["harness"]]
     RUN.cfg = spec.get("cfg", {})
     RUN.excluded = set(spec.get("excluded", []))
